@@ -58,7 +58,8 @@ _ENV = None
 def _env():
     """Build (once per process) the plug-in classes that need ropt imports."""
     global _ENV
-    if _ENV is not None:
+    import ropt
+    if _ENV is not None and _ENV["ropt"] is ropt:      # re-built when the runner re-imports ropt (forked workers)
         return _ENV
     import numpy as np
     from ropt.plugins.optimizer.base import Optimizer, OptimizerPlugin
@@ -125,7 +126,7 @@ def _env():
         def nonlinear_constraint_diffs_from_optimizer(self, lower_diffs, upper_diffs):
             return lower_diffs * self.s, upper_diffs * self.s
 
-    _ENV = {"Scripted": Scripted, "ScriptedPlugin": ScriptedPlugin, "ObjScaler": ObjScaler, "ConScaler": ConScaler}
+    _ENV = {"ropt": ropt, "Scripted": Scripted, "ScriptedPlugin": ScriptedPlugin, "ObjScaler": ObjScaler, "ConScaler": ConScaler}
     return _ENV
 
 
@@ -155,6 +156,11 @@ def make_config(case, maxf="case"):
         "gradient": {"number_of_perturbations": P, "perturbation_min_success": case["pmin"]},
         "optimizer": {"method": "verifscript/run"},
     }
+    if case.get("bounds"):
+        cfg["variables"]["lower_bounds"] = [-10.0, -10.0]
+        cfg["variables"]["upper_bounds"] = [10.0, 20.0]
+    if case.get("linear"):
+        cfg["linear_constraints"] = {"coefficients": [[1.0, 1.0]], "lower_bounds": [-50.0], "upper_bounds": [50.0]}
     mf = case.get("maxf") if maxf == "case" else maxf
     if mf is not None:
         cfg["optimizer"]["max_functions"] = mf
@@ -533,8 +539,11 @@ def _all_faults(kind, batch, R, P, full):
 
 
 def _mk(step, R, P, rmin, pmin, allow, maxf, filt, est, tr, order, script):
+    # finite variable bounds / a linear constraint give the results a ConstraintInfo also when functions is None;
+    # derived from the other fields so that the generator streams stay aligned
+    h = (R + 3 * P + 5 * rmin + 7 * len(script) + 11 * TRANSFORMS.index(tr) + (13 if filt else 0) + (17 if allow else 0))
     return {"step": step, "R": R, "P": P, "rmin": rmin, "pmin": pmin, "allow_nan": allow, "maxf": maxf, "filter": filt,
-            "estimator": est, "transform": tr, "order": order, "script": script}
+            "estimator": est, "transform": tr, "order": order, "bounds": h % 2 == 0, "linear": h % 3 == 0, "script": script}
 
 
 def _req(kind, pt, batch, fault=None):
@@ -719,6 +728,7 @@ def features(case, obs):
     out = obs["outcome"]
     return {"step": case["step"], "R": case["R"], "P": case["P"], "len": len(case["script"]),
             "filter": (case.get("filter") or ["none"])[0], "estimator": case.get("estimator"), "transform": case["transform"],
+            "bounds": bool(case.get("bounds")), "linear": bool(case.get("linear")),
             "outcome": out[1] if out[0] == "exc" else {1: "TOO_FEW", 2: "MAX_FUNCTIONS", 4: "USER_ABORT", 5: "OPT_FINISHED",
                                                        6: "EVAL_FINISHED"}.get(out[1], out[1]),
             "decider": info["decider"], "rmin0": case["rmin"] == 0, "maxf": case.get("maxf") is not None}
@@ -734,6 +744,10 @@ def shrink(case):
             yield {**case, "script": s[:k + 1]}
     if case["transform"] != "none":
         yield {**case, "transform": "none"}
+    if case.get("bounds"):
+        yield {**case, "bounds": False}
+    if case.get("linear"):
+        yield {**case, "linear": False}
     if case.get("filter") is not None:
         yield {**case, "filter": None}
     if case.get("estimator") == "stddev":
